@@ -176,6 +176,50 @@ def run(cx):
     cx.log("dynamic: %d programs, %d steps, %d opcodes exercised, %d programs with bad steps" % (
         len(srows), nsteps, len(opcodes_seen), len(badsteps)))
 
+    # ---- V2: value level - what each executed instruction did to the operand stack, the locals and the globals
+    # (BytecodeValues.tla).  Programs without concurrency and imports; 400 steps of each.
+    vsub = [c for c in cases[: (500 if cx.quick() else 5000)]] + [{"id": c["id"], "src": c["src"]} for c in skel_cases]
+    upd_cases, _ = langlib.run_family(cx, lang, "updates", 0)
+    clo_cases, _ = langlib.run_family(cx, lang, "blockclosures", 0)
+    for k_, c in enumerate(upd_cases + clo_cases):
+        vsub.append({"id": 3000000 + k_, "src": c["src"]})
+        by_id[3000000 + k_] = c
+    vsub = [c for c in vsub if not any(w in c["src"] for w in ("spawn", "import", "go ", "chan("))]
+    vin = cx.path("vsub.ndjson")
+    vlib.write_ndjson(vin, [{"id": c["id"], "src": c["src"]} for c in vsub])
+    vout = cx.path("vsteps.ndjson")
+    cx.run([bc, "steps", "-in", vin, "-out", vout, "-max", "400", "-values"])
+    vrows = []
+    nvsteps = 0
+    for r in vlib.read_ndjson(vout):
+        res = r["res"]
+        if res["k"] in ("ok", "raise") and res["steps"]:
+            vrows.append({"id": r["id"], "steps": res["steps"]})
+            nvsteps += len(res["steps"])
+    vresults = parallel_tlc(cx, "BytecodeValues", "VERIF_VSTEPS", langlib.shard_cases(cx, vrows, nsh, "vsteps"), "values")
+    badvalues = {}
+    for r in vresults:
+        for ln in r.lines:
+            m = re.match(r'^<<"BADVALUE", (\d+), (\d+), \{(.*)\}>>$', ln.strip())
+            if m:
+                badvalues.setdefault(int(m.group(1)), []).append((m.group(3).replace('"', ''), "step %s" % m.group(2)))
+    cx.log("value level: %d programs, %d steps, %d programs with unexplained steps" % (len(vrows), nvsteps, len(badvalues)))
+    cx.cover["value_level_steps_validated"] = nvsteps
+    cx.cover["value_level_programs"] = len(vrows)
+    vsteps_by_id = {r["id"]: r["steps"] for r in vrows}
+    nrep = 0
+    for pid, items in sorted(badvalues.items()):
+        kind, where = items[0]
+        if nrep < 10:
+            k_ = int(where.split()[1])
+            st = vsteps_by_id[pid]
+            cx.violation("VM instruction contradicts the value-level rules (%s): src=%r at %s: %s" % (
+                kind, by_id[pid]["src"][:300], where, json.dumps(st[max(0, k_ - 3):k_])[:600]),
+                {"leg": "values", "src": by_id[pid]["src"], "kind": kind, "at": where, "steps": st[max(0, k_ - 6):k_ + 1]})
+        nrep += 1
+    if nvsteps == 0:
+        raise vlib.Inconclusive("the value-level leg recorded no steps")
+
     # ---- scaled loops
     scale_in = cx.path("scale_in.ndjson")
     big = 100 * 1024 if not cx.quick() else 20 * 1024
